@@ -34,6 +34,47 @@ TAG_BRANCH_SITES = {
 }
 
 
+def _single_pass(ev, leaves, tang) -> bool:
+    from ._diff import component
+    from ..rules import Undecided, pick
+    L = ("elem", leaves)
+    kw = dict(leaves[3])
+    if "is_leaf" not in kw:
+        return False
+    X = P("$x")
+    try:
+        il = ev.apply(kw["is_leaf"], [X])
+    except Exception:
+        return False
+    def stops_at_diff(c):
+        if is_call(c, "is_diff") and c[2] == (X,):
+            return True
+        if is_t(c, "isinst") and c[1] == X and c[2] == "Diff":
+            return True
+        if is_t(c, "bool") and c[1] == "or":
+            return any(stops_at_diff(x) for x in c[2])
+        if is_t(c, "phi") and c[2] is True:  # a or b  ==  True if a else b
+            return stops_at_diff(c[1]) or stops_at_diff(c[3])
+        return False
+    if not stops_at_diff(il):
+        return False
+    got = []
+    for kind in ("Diff", "ChangeTangent", None):
+        def atom(c, kind=kind):
+            if is_t(c, "isinst") and c[1] == L and c[2] in ("Diff", "ChangeTangent"):
+                return c[2] == kind
+            if is_call(c, "is_diff") and c[2] == (L,):
+                return kind == "Diff"
+            if is_call(c, "is_change_tangent") and c[2] == (L,):
+                return kind == "ChangeTangent"
+            raise Undecided(show(c))
+        try:
+            got.append(pick(tang, atom))
+        except Undecided:
+            return False
+    return component(L, got[0], "tangent") and got[1] == L and is_t(got[2], "global") and got[2][1].endswith(".NoChange")
+
+
 def propagate(chk, prog):
     m, fn = prog.func("default_propagation_rule", INC)
     ev = Evaluator(prog)
@@ -63,6 +104,9 @@ def propagate(chk, prog):
     if ok:
         leaves, rr = t[2][0][1], t[2][0][2]
         ok = is_t(rr, "isinst") and rr[1] == ("elem", leaves) and rr[2] == "_NoChange" and is_call(leaves, "tree_leaves") and is_call(leaves[2][0], "tree_tangent") and leaves[2][0][2] == (P("v"),)
+        if not ok and is_t(rr, "isinst") and rr[2] == "_NoChange" and is_call(leaves, "tree_leaves") and leaves[2][:1] == (P("v"),):
+            # one pass over the leaves of v itself (each Diff ONE leaf): the tangent of a leaf by kind -- the Diff's tangent; a bare tangent itself; NoChange for a plain value
+            ok = _single_pass(ev, leaves, rr[1])
     chk.require(ok, "TAG-PROPAGATE", "Diff.static_check_no_change", "universal test over every tangent leaf", derived=show(t)[:300], expected="all(isinstance(leaf, _NoChange) for leaf in leaves(tree_tangent(v)))", where=f"{D.module.rel}:{D.methods['static_check_no_change'].lineno}")
     # tree_tangent of a non-Diff leaf is NoChange; tree_primal is the identity on it (used by the normalisation)
     for meth, want_diff, want_plain in (("tree_primal", "get_primal", "v"), ("tree_tangent", "get_tangent", "NoChange")):
